@@ -84,9 +84,14 @@ PROPS = {
                     "calls and cleaner ticks with a monotone clock the window holds exactly the samples not expired at the last "
                     "tick, in order), window_only_added (no value that was never added, no spurious zero), window_keeps_live, "
                     "export_spec (min/max attained and bounding, avg = truncated sum/len between them), export_empty. "
+                    "Counters and query log: query_and_type_counted_once, write_counters_truthful (NXDOMAIN/REFUSED/BADVERS/"
+                    "NODATA/non-authoritative counters are exactly determined by the message sent), outcome_counted_at_most_once, "
+                    "logged_once_iff_composed, cache_counter_follows_path, counter_sum over Model/Stats.lean. "
                     "Correspondence: real sliding windows (verif-tag constructor with chosen lifetime) driven on real time in "
-                    "parallel against the model, and Stats.Get against exportOf. The counter / query-log half of the property "
-                    "is checked with the query-path properties (see DESIGN.md) and is not claimed by this check yet.",
+                    "parallel against the model, Stats.Get against exportOf, and query streams (every response class, cache "
+                    "hits by repetition) served by a real handler wired to recording Stats and Logger implementations, "
+                    "per-query counter multisets and logger calls compared with the model and the logged message compared "
+                    "with the message really sent.",
             "note": "Trusted: Lean kernel + standard axioms; Go time/ticker (window correspondence runs on real time with "
                     "events kept 150 ms away from tick and expiry instants; a case whose schedule slipped > 50 ms is skipped and "
                     "counted); sort.Slice modelled as insertion sort (min/max/sum are permutation invariant, proved).",
